@@ -1,6 +1,7 @@
 package wsim
 
 import (
+	"errors"
 	"fmt"
 
 	"github.com/gorilla/websocket"
@@ -228,7 +229,7 @@ func oracleC06(run *Run) {
 			return
 		}
 		o := obs[errAt]
-		if o.ErrVal != websocket.ErrReadLimit {
+		if !errors.Is(o.ErrVal, websocket.ErrReadLimit) {
 			run.fail("C06", "wrong-error", kind, "%s: reading a message larger than the limit returned %q, expected ErrReadLimit", who, o.ErrText)
 		}
 		if o.Kind == "msg" && len(o.Data) > L {
@@ -359,9 +360,9 @@ func oracleC06Big(run *Run, e *RealEnd, rt *Task, obs []Obs, who string) {
 	}
 	if last == nil {
 		run.fail("C06", "over-limit-accepted", "big-limit", "%s: a frame claiming %d bytes (limit %d) of which almost nothing arrived produced no error", who, claimed, e.Cfg.ReadLimit)
-	} else if over && last.ErrVal != websocket.ErrReadLimit {
+	} else if over && !errors.Is(last.ErrVal, websocket.ErrReadLimit) {
 		run.fail("C06", "wrong-error", "big-limit", "%s: a frame claiming %d bytes exceeds the limit %d but the error is %q", who, claimed, e.Cfg.ReadLimit, last.ErrText)
-	} else if !over && last.ErrVal == websocket.ErrReadLimit {
+	} else if !over && errors.Is(last.ErrVal, websocket.ErrReadLimit) {
 		run.fail("C06", "within-limit-refused", "big-limit", "%s: a frame claiming %d bytes is within the limit %d but was refused with ErrReadLimit", who, claimed, e.Cfg.ReadLimit)
 	}
 	if run.AllocBytes > 0 {
